@@ -15,6 +15,8 @@ const hookAvailable = true
 
 func runPass(b ssa.Builder, name string) { ssa.VerifRunPass(b, name) }
 
+func resolveAlias(b ssa.Builder, v ssa.Value) ssa.Value { return ssa.VerifResolveAlias(b, v) }
+
 func rpoText(b ssa.Builder) string {
 	ids := ssa.VerifReversePostOrder(b)
 	if len(ids) == 0 {
